@@ -276,5 +276,5 @@ def cases(draw, rich=False):
 
 
 def units(tier):
-    return [Unit("nbs_bct", check, strategy=cases, examples=(600, 8000), shards=(8, 16)),
-            Unit("nbs_bct-null-rich", check, strategy=lambda: cases(rich=True), examples=(400, 5000), shards=(8, 16))]
+    return [Unit("nbs_bct", check, strategy=cases, examples=(600, 24000), shards=(8, 16)),
+            Unit("nbs_bct-null-rich", check, strategy=lambda: cases(rich=True), examples=(400, 15000), shards=(8, 16))]
